@@ -1,14 +1,17 @@
 #!/bin/sh
-# usage: tools/run_seeded.sh <seeded-id>...   (e.g. C06-a)  applies the change to /repo, runs the property's quick check
-# (or the check named by CHECK=<ID>), undoes the change. Evidence files are saved and restored (they must describe the unchanged tree).
-cd /verif
+# usage: tools/run_seeded.sh <seeded-id>...   (e.g. C06-a)  applies the change to the repository (MITX_REPO, default /repo), runs the
+# property's quick check (or the check named by CHECK=<ID>), undoes the change. Evidence files are saved and restored (they must describe
+# the unchanged tree). Works from any checkout of /verif (paths are relative to this script).
+V=$(cd "$(dirname "$0")/.." && pwd)
+R=${MITX_REPO:-/repo}
+cd "$V"
 for s in "$@"; do
   pid=${CHECK:-${s%%-*}}
-  cp evidence/$pid.json /tmp/evidence_$pid.bak 2>/dev/null
-  git -C /repo apply /verif/seeded/$s/patch.diff || { echo "$s APPLY-FAILED"; continue; }
+  cp evidence/$pid.json /tmp/evidence_$pid.$$.bak 2>/dev/null
+  git -C $R apply $V/seeded/$s/patch.diff || { echo "$s APPLY-FAILED"; continue; }
   ./check $pid --tier quick > /tmp/seeded_$s.out 2>&1; rc=$?
-  git -C /repo checkout -- .
-  git -C /verif checkout -- lean/Mitx/Generated 2>/dev/null
-  cp /tmp/evidence_$pid.bak evidence/$pid.json 2>/dev/null
+  git -C $R checkout -- .
+  git -C $V checkout -- lean/Mitx/Generated 2>/dev/null
+  cp /tmp/evidence_$pid.$$.bak evidence/$pid.json 2>/dev/null
   echo "$s check=$pid rc=$rc $(grep '^VIOLATION' /tmp/seeded_$s.out | head -1)"
 done
